@@ -127,8 +127,8 @@ def build_ops():
 	from tangermeme.predict import predict
 	from tangermeme.deep_lift_shap import deep_lift_shap
 	from tangermeme.ism import saturation_mutagenesis
-	from tangermeme.marginalize import marginalize
-	from tangermeme.ablate import ablate
+	from tangermeme.marginalize import marginalize, marginalize_annotations
+	from tangermeme.ablate import ablate, ablate_annotations
 	from tangermeme.space import space
 	from tangermeme import variant_effect as ve
 	from tangermeme.product import apply_pairwise, apply_product
@@ -164,6 +164,13 @@ def build_ops():
 		"ablate_dls": (lambda m: ablate(m, X, 2, 8, n=2, random_state=0,
 			func=deep_lift_shap, n_shuffles=2, batch_size=4, device="cpu",
 			**rk), ablate),
+		"marginalize_annotations_dls": (lambda m: marginalize_annotations(m,
+			X, X, torch.tensor([[0, 2, 6], [2, 5, 9]]),
+			func=deep_lift_shap, **DLS_KW, **rk), marginalize_annotations),
+		"ablate_annotations_dls": (lambda m: ablate_annotations(m, X,
+			torch.tensor([[1, 2, 8], [0, 4, 9]]), n=2, random_state=0,
+			func=deep_lift_shap, n_shuffles=2, batch_size=4, device="cpu",
+			**rk), ablate_annotations),
 		"space": (lambda m: space(m, X, ["AC", "GT"], [[1], [2]],
 			device="cpu"), space),
 		"space_dls": (lambda m: space(m, X, ["AC", "GT"], [[1], [2]],
@@ -485,7 +492,8 @@ def case_history(cls, params, rec):
 
 # ---------------------------------------------------------------------------
 
-EVENT_OPS = ["dls", "dls_dinuc_args_raw", "dls_tensor_refs", "marginalize_dls",
+EVENT_OPS = ["marginalize_annotations_dls", "ablate_annotations_dls",
+	"dls", "dls_dinuc_args_raw", "dls_tensor_refs", "marginalize_dls",
 	"ablate_dls", "space_dls", "substitution_dls", "deletion_dls",
 	"product_dls", "predict", "predict_args", "ism", "marginalize", "ablate",
 	"space", "substitution", "insertion", "pairwise", "greedy"]
@@ -495,7 +503,9 @@ LINE_OPS_THOROUGH = [("dls", "dls"), ("dls_dinuc_args_raw", "dls"),
 	("dls", "alias"),
 	("marginalize_dls", "dls"), ("ablate_dls", "dls"), ("space_dls", "dls"),
 	("substitution_dls", "dls"), ("deletion_dls", "dls"),
-	("product_dls", "dls"), ("pairwise", "dls"), ("greedy", "dls")]
+	("product_dls", "dls"), ("pairwise", "dls"), ("greedy", "dls"),
+	("marginalize_annotations_dls", "alias"),
+	("ablate_annotations_dls", "dls")]
 
 
 def plan(tier, seed):
